@@ -13,6 +13,7 @@ import (
 	"fmt"
 	"math"
 	"sort"
+	"strconv"
 	"strings"
 	"sync"
 	"unsafe"
@@ -1625,9 +1626,15 @@ func parseFieldNumValue(s string) (float64, int32, error) {
 		return 0, Field_Type_Unknown, fmt.Errorf("invalid number")
 	}
 	if ch == 'f' && len(s) > 1 {
-		// Unsigned integer value
+		// Float value with the 'f' suffix
 		ss := s[:len(s)-1]
-		n := fastfloat.ParseBestEffort(ss)
+		if !IsValidNumber(ss) {
+			return 0, Field_Type_Unknown, fmt.Errorf("invalid field value")
+		}
+		n, err := parseFloatValue(ss)
+		if err != nil {
+			return 0, Field_Type_Unknown, err
+		}
 		return n, Field_Type_Float, nil
 	}
 	if s == "t" || s == "T" || s == "true" || s == "True" || s == "TRUE" {
@@ -1641,12 +1648,23 @@ func parseFieldNumValue(s string) (float64, int32, error) {
 		return 0, Field_Type_Unknown, fmt.Errorf("invalid field value")
 	}
 
-	f := fastfloat.ParseBestEffort(s)
-	if math.IsNaN(f) || math.IsInf(f, 0) {
-		return 0, Field_Type_Unknown, fmt.Errorf("invalid number")
+	f, err := parseFloatValue(s)
+	if err != nil {
+		return 0, Field_Type_Unknown, err
 	}
 
 	return f, Field_Type_Float, nil
+}
+
+// parseFloatValue converts a syntactically valid decimal number to the nearest float64.
+// fastfloat.ParseBestEffort is not used here: it is off by one ulp for many ordinary
+// inputs (e.g. 5.15352305031E+11) and returns 0 for a leading '+'.
+func parseFloatValue(s string) (float64, error) {
+	f, err := strconv.ParseFloat(s, 64)
+	if err != nil || math.IsNaN(f) || math.IsInf(f, 0) {
+		return 0, fmt.Errorf("invalid number")
+	}
+	return f, nil
 }
 
 func parseFieldStrValue(s string) (string, error) {
